@@ -139,6 +139,8 @@ CHECKS["C04"] = {
     "level_note": "Test validator = total order on (rank, bytes) with optional end-of-life under the virtual clock; the standard client is exercised here, the accelerated and dual clients in C16/C15 parts.",
     "parts": [
         {"part": "values", "pkg": ROOT, "test": "TestVerif_C04_Values", "quick": 2500, "thorough": 40000},
+        {"part": "fullrt", "pkg": "./fullrt/", "test": "TestVerif_C04_FullRT", "quick": 1200, "thorough": 20000},
+        {"part": "public-key", "pkg": ROOT, "test": "TestVerif_C04_PublicKey", "quick": 1500, "thorough": 25000},
     ],
 }
 
